@@ -267,7 +267,12 @@ def rule_policy_tab(ctx, tu, py):
                 # the handler was merged into the switch: its statements are judged by C09.HANDLERS
                 ctx.ok(R, sw[0], m.qual, "case %d (%s) -> inline body" % (code, pol), "handler merged into the switch")
                 continue
-            ctx.check(table.get(code) == want, R, sw[0], m.qual, "case %d (%s) -> %s" % (code, pol, table.get(code)),
+            got_ = table.get(code)
+            if not handler and got_ is None:
+                # no case for this code: nothing runs, provided a default label does nothing either
+                dflt = [c_ for n_ in walk(sw[0]) if n_.get("kind") == "DefaultStmt" for c_ in walk(n_) if c_.get("kind") == "CXXMemberCallExpr"]
+                got_ = [] if not dflt else [call_parts(c_)[0] for c_ in dflt]
+            ctx.check(got_ == want, R, sw[0], m.qual, "case %d (%s) -> %s" % (code, pol, got_),
                       "handler %s" % (handler or "none"), "code %d runs %s, the policy \"%s\" means %s" %
                       (code, table.get(code), pol, handler or "no sampling"))
     ctx.floor(R, 1 + 2 * 5 + 2 * 5)
